@@ -307,3 +307,59 @@ Proof.
   pose proof (files_ext_field_nums D D' He (b "FooEventsRequest") (b "page") 2) as Hin.
   rewrite H2, H3 in Hin. destruct (Hin (or_introl eq_refl)) as [E|[]]. discriminate E.
 Qed.
+
+(* ---- a message appended to a publish topic (outside J5sEdit.edit / file_src_ext: the relation keeps
+   the number of messages of a topic).  Converter level: when every message of the topic carries a
+   name of its own, the messages and rpcs generated before are a prefix of the new ones - the
+   names do not depend on how many messages the topic has (acceptTopic: the topic's name is used
+   only for a message without a name, and only when it is the single one). *)
+Section TopicMsgs.
+Variables snake camel screaming : str -> str.
+Notation cv_tmsgs := (J5sConvert.cv_tmsgs snake camel screaming).
+Notation accept_topic := (J5sConvert.accept_topic snake camel screaming).
+
+Definition all_named (l : list tmsg) : Prop := Forall (fun t => tm_name t <> None) l.
+
+Lemma cv_tmsgs_single_irrel ev tn virt l s s' : all_named l -> cv_tmsgs ev tn s virt l = cv_tmsgs ev tn s' virt l.
+Proof.
+  intros H. induction H as [|t r Ht Hr IH]; [reflexivity|]. cbn [J5sConvert.cv_tmsgs].
+  destruct (tm_name t) as [n|]; [|contradiction Ht; reflexivity]. rewrite IH. reflexivity.
+Qed.
+
+Lemma cv_tmsgs_app ev tn s virt extra : forall l ms ds is r',
+  cv_tmsgs ev tn s virt l = Ok (ms, ds, is) -> cv_tmsgs ev tn s virt (l ++ extra) = Ok r' ->
+  exists ms2 ds2 is2, cv_tmsgs ev tn s virt extra = Ok (ms2, ds2, is2) /\ r' = (ms ++ ms2, ds ++ ds2, is ++ is2).
+Proof.
+  induction l as [|t r IH]; intros ms ds is r' H H'.
+  - cbn in H. inversion H. subst. cbn [app] in H'. destruct r' as [[x y] z]. exists x, y, z. split; [exact H'|reflexivity].
+  - cbn [J5sConvert.cv_tmsgs app] in H, H'.
+    apply obind_ok in H. destruct H as (mn & Emn & H).
+    apply obind_ok in H'. destruct H' as (mn' & Emn' & H').
+    rewrite Emn in Emn'. inversion Emn'. subst mn'. clear Emn'.
+    apply obind_ok in H. destruct H as (a & Ea & H).
+    apply obind_ok in H'. destruct H' as (a' & Ea' & H').
+    rewrite Ea in Ea'. inversion Ea'. subst a'. clear Ea'.
+    apply obind_ok in H. destruct H as ([[cm cd] ci] & Er & H).
+    apply obind_ok in H'. destruct H' as ([[cm' cd'] ci'] & Er' & H').
+    inversion H. inversion H'. subst. clear H H'.
+    destruct (IH _ _ _ _ Er Er') as (ms2 & ds2 & is2 & E2 & Eq). inversion Eq. subst.
+    exists ms2, ds2, is2. split; [exact E2|]. cbn [app]. rewrite app_assoc. reflexivity.
+Qed.
+
+Theorem publish_append_messages ev tn topic_name rl virt l extra ms ss is ms' ss' is' :
+  all_named l ->
+  accept_topic ev tn topic_name rl virt l = Ok (ms, ss, is) ->
+  accept_topic ev tn topic_name rl virt (l ++ extra) = Ok (ms', ss', is') ->
+  prefix_of ms ms' /\ Forall2 service_ext ss ss'.
+Proof.
+  intros Hn H H'. unfold J5sConvert.accept_topic in *.
+  rewrite (cv_tmsgs_single_irrel ev tn virt l (is_single l) (is_single (l ++ extra)) Hn) in H.
+  apply obind_ok in H. destruct H as ([[m1 d1] i1] & E & H).
+  apply obind_ok in H'. destruct H' as ([[m1' d1'] i1'] & E' & H').
+  inversion H. inversion H'. subst. clear H H'.
+  destruct (cv_tmsgs_app _ _ _ _ _ _ _ _ _ _ E E') as (ms2 & ds2 & is2 & _ & Eq). inversion Eq. subst.
+  split; [exists ms2; reflexivity|].
+  constructor; [|constructor]. unfold service_ext. cbn [ds_name ds_topic ds_methods].
+  repeat split. exists ds2. reflexivity.
+Qed.
+End TopicMsgs.
